@@ -261,6 +261,7 @@ type Tear struct {
 	Durable  int // length that was durable anyway
 	Full     int // volatile length at the crash point
 	Survived int // length of the file in the image (Durable <= Survived <= Full)
+	Zeroed   int // the last Zeroed bytes of the surviving content read as zeros (ZeroTails family), else 0
 }
 
 // TearOptions selects the surviving lengths that are enumerated per file.
@@ -283,6 +284,76 @@ type TearOptions struct {
 	// every other file keeps either nothing or all of its un-synced suffix"
 	// and State.Reduced reports true (the run is then not exhaustive).
 	MaxProduct int
+	// ZeroTails, when non-nil, adds the optional crash-image family "zero-filled
+	// tail" (size metadata may become durable before the data: the file
+	// survives to length survived, but the last z bytes of it read as zeros).
+	// For every candidate surviving length the callback returns the z values to
+	// enumerate in addition to z = 0. crashfs only enforces that the zeroed
+	// bytes lie inside the un-synced suffix (z <= survived-Durable, z > 0); which
+	// bytes may soundly be zeroed depends on the format and is the harness's
+	// decision (see FramedZeroTails for length-prefixed records).
+	ZeroTails func(fc *FileCrashState, survived int) []int
+}
+
+// FramedZeroTails returns a ZeroTails callback for files made of records
+// "headerLen bytes of header, payload", where payloadLen(header) gives the
+// payload length: zeros are confined to the payload of the record in which the
+// surviving content ends, and only if that record's header survived intact and
+// is itself un-synced data; z is 1, half and all of the surviving payload bytes
+// of that record. A header byte is never zeroed.
+func FramedZeroTails(headerLen int, payloadLen func(header []byte) int) func(fc *FileCrashState, survived int) []int {
+	return func(fc *FileCrashState, survived int) []int {
+		off := 0
+		for off+headerLen <= len(fc.Data) {
+			n := payloadLen(fc.Data[off : off+headerLen])
+			end := off + headerLen + n
+			if survived <= off+headerLen {
+				return nil // ends before / inside / right after a header: no payload byte survived
+			}
+			if survived <= end || end > len(fc.Data) {
+				p := survived - (off + headerLen) // surviving payload bytes of this record
+				if lim := survived - fc.Durable; p > lim {
+					p = lim // only un-synced bytes can be affected
+				}
+				var out []int
+				for _, z := range []int{1, p / 2, p} {
+					if z > 0 && (len(out) == 0 || out[len(out)-1] != z) {
+						out = append(out, z)
+					}
+				}
+				return out
+			}
+			off = end
+		}
+		return nil
+	}
+}
+
+type tearChoice struct{ l, z int }
+
+// choices returns the (surviving length, zeroed tail) candidates of one file.
+func (o *TearOptions) choices(fc *FileCrashState) []tearChoice {
+	lens := o.SurvivingLengths(fc)
+	out := make([]tearChoice, 0, len(lens))
+	for _, l := range lens {
+		out = append(out, tearChoice{l, 0})
+		if o != nil && o.ZeroTails != nil {
+			for _, z := range o.ZeroTails(fc, l) {
+				if z > 0 && z <= l-fc.Durable {
+					out = append(out, tearChoice{l, z})
+				}
+			}
+		}
+	}
+	return out
+}
+
+func (c tearChoice) bytes(fc *FileCrashState) []byte {
+	b := append([]byte(nil), fc.Data[:c.l]...)
+	for i := c.l - c.z; i < c.l; i++ {
+		b[i] = 0
+	}
+	return b
 }
 
 // SurvivingLengths returns the sorted candidate lengths for one file.
@@ -348,7 +419,7 @@ func (s *State) Reduced(o *TearOptions) bool {
 	prod := 1
 	for i := range s.Files {
 		if s.Files[i].Unsynced() > 0 {
-			prod *= len(o.SurvivingLengths(&s.Files[i]))
+			prod *= len(o.choices(&s.Files[i]))
 			if prod > o.MaxProduct {
 				return true
 			}
@@ -358,45 +429,57 @@ func (s *State) Reduced(o *TearOptions) bool {
 }
 
 // Images enumerates the crash images of the state: the cartesian product, over
-// all files with an un-synced suffix, of the candidate surviving lengths. fn
-// receives a fresh image (it may keep it) and the tears that produced it;
-// returning false stops the enumeration. The number of images is returned.
+// all files with an un-synced suffix, of the candidate surviving lengths (and,
+// with ZeroTails, zero-filled tails). fn receives a fresh image (it may keep
+// it) and the tears that produced it; returning false stops the enumeration.
+// The number of images is returned.
 func (s *State) Images(o *TearOptions, fn func(img *Image, tears []Tear) bool) int {
 	type cand struct {
 		idx  int
-		lens []int
+		opts []tearChoice
 	}
 	var cands []cand
 	for i := range s.Files {
 		if s.Files[i].Unsynced() > 0 {
-			cands = append(cands, cand{i, o.SurvivingLengths(&s.Files[i])})
+			cands = append(cands, cand{i, o.choices(&s.Files[i])})
 		}
 	}
-	choice := make([]int, len(cands))
+	build := func(pick func(ci int) tearChoice) (*Image, []Tear) {
+		img := &Image{Dirs: append([]string(nil), s.Dirs...), Files: make(map[string][]byte, len(s.Files))}
+		for i := range s.Files {
+			if s.Files[i].Unsynced() == 0 {
+				img.Files[s.Files[i].Path] = append([]byte(nil), s.Files[i].Data...)
+			}
+		}
+		tears := make([]Tear, len(cands))
+		for ci, c := range cands {
+			fc := &s.Files[c.idx]
+			ch := pick(ci)
+			img.Files[fc.Path] = ch.bytes(fc)
+			tears[ci] = Tear{Path: fc.Path, Durable: fc.Durable, Full: len(fc.Data), Survived: ch.l, Zeroed: ch.z}
+		}
+		return img, tears
+	}
 	n := 0
 	if s.Reduced(o) {
 		// one file varies, the others keep nothing / everything
 		seen := map[string]bool{}
 		for vi := range cands {
 			for _, othersFull := range []bool{false, true} {
-				for _, l := range cands[vi].lens {
-					img := &Image{Dirs: append([]string(nil), s.Dirs...), Files: make(map[string][]byte, len(s.Files))}
-					for i := range s.Files {
-						img.Files[s.Files[i].Path] = append([]byte(nil), s.Files[i].Data[:s.Files[i].Durable]...)
-					}
-					tears := make([]Tear, len(cands))
-					key := ""
-					for ci, c := range cands {
-						fc := &s.Files[c.idx]
-						sl := fc.Durable
-						if ci == vi {
-							sl = l
-						} else if othersFull {
-							sl = len(fc.Data)
+				for _, ch := range cands[vi].opts {
+					img, tears := build(func(ci int) tearChoice {
+						fc := &s.Files[cands[ci].idx]
+						switch {
+						case ci == vi:
+							return ch
+						case othersFull:
+							return tearChoice{len(fc.Data), 0}
 						}
-						img.Files[fc.Path] = append([]byte(nil), fc.Data[:sl]...)
-						tears[ci] = Tear{Path: fc.Path, Durable: fc.Durable, Full: len(fc.Data), Survived: sl}
-						key += fmt.Sprintf("%d,", sl)
+						return tearChoice{fc.Durable, 0}
+					})
+					key := ""
+					for _, t := range tears {
+						key += fmt.Sprintf("%d/%d,", t.Survived, t.Zeroed)
 					}
 					if seen[key] {
 						continue
@@ -411,21 +494,9 @@ func (s *State) Images(o *TearOptions, fn func(img *Image, tears []Tear) bool) i
 		}
 		return n
 	}
+	choice := make([]int, len(cands))
 	for {
-		img := &Image{Dirs: append([]string(nil), s.Dirs...), Files: make(map[string][]byte, len(s.Files))}
-		for i := range s.Files {
-			img.Files[s.Files[i].Path] = s.Files[i].Data[:s.Files[i].Durable]
-		}
-		tears := make([]Tear, len(cands))
-		for ci, c := range cands {
-			fc := &s.Files[c.idx]
-			l := c.lens[choice[ci]]
-			img.Files[fc.Path] = fc.Data[:l]
-			tears[ci] = Tear{Path: fc.Path, Durable: fc.Durable, Full: len(fc.Data), Survived: l}
-		}
-		for p, b := range img.Files {
-			img.Files[p] = append([]byte(nil), b...)
-		}
+		img, tears := build(func(ci int) tearChoice { return cands[ci].opts[choice[ci]] })
 		n++
 		if !fn(img, tears) {
 			return n
@@ -433,7 +504,7 @@ func (s *State) Images(o *TearOptions, fn func(img *Image, tears []Tear) bool) i
 		ci := 0
 		for ; ci < len(cands); ci++ {
 			choice[ci]++
-			if choice[ci] < len(cands[ci].lens) {
+			if choice[ci] < len(cands[ci].opts) {
 				break
 			}
 			choice[ci] = 0
@@ -462,6 +533,25 @@ func (s *State) ImageWith(survive map[string]int) *Image {
 			l = v
 		}
 		img.Files[fc.Path] = append([]byte(nil), fc.Data[:l]...)
+	}
+	return img
+}
+
+// ImageWithZero is ImageWith plus zero-filled tails: zero[path] trailing bytes
+// of the surviving content of that file read as zeros (clamped to the un-synced
+// part). Used by replays of ZeroTails images.
+func (s *State) ImageWithZero(survive, zero map[string]int) *Image {
+	img := s.ImageWith(survive)
+	for i := range s.Files {
+		fc := &s.Files[i]
+		z := zero[fc.Path]
+		b := img.Files[fc.Path]
+		if z > len(b)-fc.Durable {
+			z = len(b) - fc.Durable
+		}
+		for j := len(b) - z; j < len(b) && z > 0; j++ {
+			b[j] = 0
+		}
 	}
 	return img
 }
